@@ -9,7 +9,8 @@ import (
 
 var verifHook atomic.Pointer[func(point int, addr unsafe.Pointer)]
 
-// VerifSetSchedHook installs (nil: removes) a function that Mutex.Lock, RWMutex.Lock and RWMutex.RLock call
+// VerifSetSchedHook installs (nil: removes) a function that Mutex.Lock, RWMutex.Lock, RWMutex.RLock, Cond.Wait,
+// Cond.Signal and Cond.Broadcast call
 // before they do anything else. The harness uses it to park the calling goroutine until its controller lets
 // it proceed, which puts the order of lock acquisitions - and with it the order in which goroutines woken by
 // Cond.Signal/Broadcast get to run - under the control of a generated schedule.
